@@ -41,6 +41,26 @@ CHECKS = {
          "For every cloneable type the clone must render equal, share no memory region with the original outside the documented shared set, and scribbling over every leaf of either side (and further machine operations on either machine) must not change the other side.",
          "Trusted: the pointer-graph walker (harness/internal/ptrgraph); the shared set is taken from the statement (App, Asset, accounts, logger).",
          "DESIGN.md §5 C19"),
+ "C05": ("exploration", "runtime monitoring: the real watcher driven by a scripted RegisterSubscriber through exhaustive short and random long histories, compared step by step with a reference model",
+         "Every operation (publish, adjudicator events with versions below/equal/above the published one, start/stop of sub-channels, refused and repeated stops) is followed by a barrier that makes its effects complete without sleeping; the Register calls received (parent version, per locked sub-channel the state version), the events on every EventStream and the results are compared exactly with the reference model of appendix B.",
+         "Trusted: the reference model; single ledger and the statement's domain (locked sub-channels are watched or archived). The scripted Register always succeeds. Concurrent publish/event races are not part of the exact oracle.",
+         "DESIGN.md §5 C05, appendix B"),
+ "C10": ("fault_enumeration", "runtime monitoring with fault injection: store frozen at every atomic write boundary of generated histories (memory: snapshot per boundary; LevelDB: re-run with later writes dropped, close, re-open), restored channel compared with live snapshots",
+         "For every history of the persisting state machine and every write boundary, RestoreChannel and RestorePeer must yield exactly the live machine's state before or after the interrupted operation (after, once its last write is in), and every restored staging signature must verify for the restored staged state.",
+         "Trusted: a batch is atomic (LevelDB's guarantee); crash points are write boundaries of the sortedkv interface, not torn writes inside LevelDB. Histories are generated, boundaries within them enumerated exhaustively (memory) or sampled (LevelDB, quick tier).",
+         "DESIGN.md §5 C10"),
+ "C11": ("fault_enumeration", "runtime monitoring: every restorer view compared with a reference map after every step of generated create/advance/remove histories, plus differential key-set replay",
+         "After every step RestorePeer (every peer), ActivePeers, RestoreAll and RestoreChannel (every channel ever created) must agree with the reference set of live channels and their snapshots, and after removals the raw key set must equal that of the history replayed without the removed channels; memory and LevelDB stores.",
+         "Trusted: the reference bookkeeping of the harness; histories are generated (every removal point within them is checked).",
+         "DESIGN.md §5 C11"),
+ "C18": ("exploration", "runtime monitoring: recorded relay histories checked against an exact sequential model, for linearizability (porcupine, nondeterministic model) and by exactly-once/conservation invariants under stress with the race detector",
+         "Recording consumers with unique envelope ids observe every hand-over at the relay's boundary; single-threaded histories must match the reference model step by step, short concurrent histories must be linearizable, long multi-producer histories must satisfy no-wrong-recipient / at-most-once / conservation / interval bounds at quiescence, and the race detector must stay silent in relay, cache and receiver code.",
+         "Trusted: the relay reference model (appendix A); quiescence by goroutine count in single-history child processes; porcupine v1.3.0. Reach is limited to the interleavings the scheduler and injected yields produced.",
+         "DESIGN.md §5 C18, appendix A"),
+ "C20": ("fault_enumeration", "runtime monitoring with fault injection: scripted per-ledger adjudicators/funders whose failures and completion order the harness controls, call logs on a logical clock",
+         "For generated asset lists every subset of registered ledgers, every failing subset and every completion order (<= 4 ledgers; sampled above) of Register/Progress/Withdraw/Fund (incl. every egoistic index) is executed; the per-ledger call log must show each distinct ledger of the assets exactly once on success (at most once on failure) and no other, the result must be an error iff a ledger is unregistered or a sub-call failed, and the egoistic ledger must be funded only after all others succeeded.",
+         "Trusted: the scripted ledgers; completion order is controlled by releasing blocked sub-calls at harness-detected stable points (goroutine count), so no wall-clock verdicts.",
+         "DESIGN.md §5 C20"),
 }
 PENDING = {}  # id -> reason, for properties without a check
 
